@@ -284,7 +284,7 @@ func keysOfBool(m map[string]bool) []string {
 }
 
 func checkC12(c *vkit.Ctx) {
-	c.P.Rule = "case = (option set, sequence of 1..4 entry points) - ALL 780 sequences over the five Match* entry points x 144 option sets (Filename x Ext x Update x JSON x nested Dir); each sequence is executed twice in fresh directories: through one shared Config and through a freshly built identical Config per call; oracle: reflection fingerprint of the Config (and of an unrelated Config and of WithConfig()) before/after every call, and equality of created relative paths, file bytes and outcomes between the two executions; plus sampled sequences in which the calls of one test come from two different _test.go files (default file name = the calling file's, per call) sampled re-entrant calls (a Custom callback of a call through one Config snapshots through another Config with other JSON options), and sampled sequences through a Config and a by-value copy of it with another Filename (taken before, between or after calls through the original); non-trivial = sequence of length >= 2 (an earlier call can influence a later one); distinct by (option set, sequence); thorough adds concurrent mixes through one Config under the race detector"
+	c.P.Rule = "case = (option set, sequence of 1..4 entry points) - ALL 780 sequences over the five Match* entry points x 144 option sets (Filename x Ext x Update x JSON x nested Dir); each sequence is executed twice in fresh directories: through one shared Config and through a freshly built identical Config per call; oracle: reflection fingerprint of the Config (and of an unrelated Config and of WithConfig()) before/after every call, and equality of created relative paths, file bytes and outcomes between the two executions; plus sampled sequences in which the calls of one test come from two different _test.go files (default file name = the calling file's, per call) sampled sets of 2-4 Configs built from one slice of option VALUES (some with an override behind it), each stored JSON text compared with the Config's own options; sampled re-entrant calls (a Custom callback of a call through one Config snapshots through another Config with other JSON options), and sampled sequences through a Config and a by-value copy of it with another Filename (taken before, between or after calls through the original); non-trivial = sequence of length >= 2 (an earlier call can influence a later one); distinct by (option set, sequence); thorough adds concurrent mixes through one Config under the race detector"
 	sets := allOptSets()
 	var seqs [][]string
 	var rec func(pre []string, n int)
